@@ -154,6 +154,10 @@ func runC03(c *Ctx) {
 
 	ruleResetEffects(c)
 
+	R.Rule("R-state-writers", "who-may-write", "the greeting name and the BINARYMIME flag are written only by the handlers that own them", 2)
+	c.obWriters("Conn.helo", "set by the greeting, cleared when session creation fails and by the TLS upgrade", "(*Conn).handleGreet", "(*Conn).handleStartTLS")
+	c.obWriters("Conn.binarymime", "decided by each MAIL command", "(*Conn).handleMail")
+
 	R.Rule("R-reset-at-end", "E2 must-pass-through", "every transaction end passes through reset() (or Close after a backend panic) before the handler returns", 6)
 	if f := c.A.Func("(*Conn).handleData"); f != nil {
 		c.obFollow("354 then reset", f, c.direct("reply:354"), []string{lReset}, nil, nil)
